@@ -417,7 +417,7 @@ pub fn init_system_functions() -> HashMap<String, SystemFunction> {
     sysfunc_add!(sf, "PLAY", TokenType::Play, '*'); // play multi track (ex) Play(AA,BB,CC)
     sysfunc_add!(sf, "SysEx", TokenType::SysEx, '*'); // System Exclusive (ex) SysEx$=f0,43,10,4c,00,{00,00,30,f0},f7
     sysfunc_add!(sf, "PlayFrom.SysEx", TokenType::SysEx, '*'); // =SysEx
-    sysfunc_add!(sf, "PlayFrom.CtrlChg", TokenType::ControlChange, 'A'); // =CONTROL_CHANGE
+    sysfunc_add!(sf, "PlayFrom.CtrlChg", TokenType::ControlChange, '*'); // =CONTROL_CHANGE
     sysfunc_add!(sf, "PlayFrom", TokenType::PlayFrom, 'A'); // play from time position (ex) PlayFrom(5:1:0)
     sysfunc_add!(sf, "PLAY_FROM", TokenType::PlayFrom, 'A'); // play from time position (ex) PLAY_FROM(5:1:0)
     sysfunc_add!(sf, "PlayFromHere", TokenType::PlayFromHere, '_'); // play from current time pos (ex) PlayFromHere
